@@ -1,0 +1,24 @@
+//go:build verif
+
+package document
+
+import (
+	"github.com/benoitkugler/webrender/backend"
+	pr "github.com/benoitkugler/webrender/css/properties"
+	bo "github.com/benoitkugler/webrender/html/boxes"
+	"github.com/benoitkugler/webrender/text"
+	"github.com/benoitkugler/webrender/text/hyphen"
+)
+
+// VerifDrawBackgroundImage runs the unexported drawBackgroundImage for one laid
+// out background layer on [dst] (used by the /verif correspondence check of
+// property C14: tiling arithmetic). Compiled only with `-tags verif`.
+func VerifDrawBackgroundImage(dst backend.Canvas, fonts text.FontConfiguration, layer bo.BackgroundLayer, imageRendering pr.String) {
+	ctx := drawContext{
+		dst:               dst,
+		fonts:             fonts,
+		hyphenCache:       make(map[text.HyphenDictKey]hyphen.Hyphener),
+		strutLayoutsCache: make(map[text.StrutLayoutKey][2]pr.Float),
+	}
+	ctx.drawBackgroundImage(layer, imageRendering)
+}
